@@ -234,7 +234,7 @@ fn harvest_tx(tx: &[u8], outputs: &mut Vec<Vec<u8>>, addrs: &mut Vec<Vec<u8>>) {
     }
 }
 
-const ADDRESS_VECTORS: [&str; 14] = [
+const ADDRESS_VECTORS: [&str; 13] = [
     "addr1qx2fxv2umyhttkxyxp8x0dlpdt3k6cwng5pxj3jhsydzer3n0d3vllmyqwsx5wktcd8cc3sq835lu7drv2xwl2wywfgse35a3x",
     "addr1z8phkx6acpnf78fuvxn0mkew3l0fd058hzquvz7w36x4gten0d3vllmyqwsx5wktcd8cc3sq835lu7drv2xwl2wywfgs9yc0hh",
     "addr1yx2fxv2umyhttkxyxp8x0dlpdt3k6cwng5pxj3jhsydzerkr0vd4msrxnuwnccdxlhdjar77j6lg0wypcc9uar5d2shs2z78ve",
@@ -248,8 +248,6 @@ const ADDRESS_VECTORS: [&str; 14] = [
     "37btjrVyb4KDXBNC4haBVPCrro8AQPHwvCMp3RFhhSVWwfFmZ6wwzSK6JK1hY6wHNmtrpTf1kdbva8TCneM2YsiXT7mrzT21EacHnPpz5YyUdj64na",
     "DdzFFzCqrht7PQiAhzrn6rNNoADJieTWBt8KeK9BZdUsGyX9ooYD9NpMCTGjQoUKcHN47g8JMXhvKogsGpQHtiQ65fZwiypjrC6d3a4Q",
     "Ae2tdPwUPEZLs4HtbuNey7tK4hTKrwNwYtGqp7bDfCy2WdR3P6735W5Yfpe",
-    // a testnet address (different HRP)
-    "addr_test1vz2fxv2umyhttkxyxp8x0dlpdt3k6cwng5pxj3jhsydzerspjrlsz",
 ];
 
 fn vector_bytes(s: &str) -> Vec<u8> {
@@ -316,6 +314,14 @@ pub fn build(cat: &[Entry]) -> Vec<Seed> {
         let b = vector_bytes(v);
         if seen_addr.insert(b.clone()) {
             addr_bytes.push((format!("vector:{}", &v[..v.len().min(24)]), b));
+        }
+    }
+    // testnet twins (network nibble 0) of a payment and a stake vector: other HRPs
+    for i in [0usize, 8] {
+        let mut b = addr_bytes[i].1.clone();
+        b[0] &= 0xf0;
+        if seen_addr.insert(b.clone()) {
+            addr_bytes.push((format!("{}:testnet", addr_bytes[i].0), b));
         }
     }
     let n_vectors = addr_bytes.len();
